@@ -17,6 +17,7 @@ key list.  The nested-dictionary model of the property is stated through its obs
                                                          C25_merge_into_undefined
   every history keeps the std::map invariant             C25_history_wf (so the laws apply after any history)
 -/
+import OccaProofs.Lemmas.JsonGenTie
 import OccaProofs.Lemmas.JsonPathLaws
 import OccaProofs.Lemmas.JsonSplit
 
